@@ -32,6 +32,37 @@ DECOYS = ['#[typeshare]\npub union AnnotatedUnion { a: u32, b: f32 }\n',
           '#[typeshare]\npub trait AnnotatedTrait { fn f(&self); }\n']
 
 
+_OS = ('#[typeshare]\n#[cfg(target_os = "ios")]\npub struct OnlyIos { pub a: u8 }\n'
+       '#[typeshare]\npub struct Both { pub a: u8, #[cfg(not(target_os = "android"))] pub b: u8, #[cfg(target_os = "android")] pub c: u8 }\n'
+       '#[typeshare]\npub enum En { A, #[cfg(any(target_os = "ios", target_os = "macos"))] B, C }\n'
+       'pub mod m { #[cfg(target_os = "android")] #[typeshare] pub type OnlyAndroid = u8; }\n')
+# witnesses of the finding classes and hand-written corner cases (source, --target-os); always run first
+FIXED = [
+    ('#[typeshare]\n#[serde(tag = "t", content = "c")]\npub enum E {\n    #[serde(rename = "fooBar")]\n    A(u8),\n    #[serde(rename = "foo_bar")]\n    B(u8),\n}\n', []),
+    ('#[typeshare]\npub const X: u32 = 5;\n#[typeshare]\npub struct S { pub a: u8 }\n', []),
+    (_OS, []), (_OS, ['android']), (_OS, ['ios']), (_OS, ['ios', 'android']), (_OS, ['linux']),
+    ('pub mod a { pub mod b { pub mod c { pub mod d { pub mod e { fn f() { #[typeshare]\npub struct Deep { pub x: u8 } } } } } } }\n'
+     'struct Foo;\nimpl Foo { fn m() { #[typeshare] pub type InImpl = u8; } }\ntrait Tr { fn d() { #[typeshare] pub enum InTrait { A } } }\n'
+     '#[typeshare]\nunion U { a: u8 }\n#[typeshare]\nfn g() { #[typeshare] pub struct InAnnotatedFn { pub y: u8 } }\n', []),
+    ('#[typeshare]\npub struct P {\n    #[doc = "x"] #[serde(rename = "q", skip)] pub a: u8,\n    #[serde(default)] #[typeshare(skip)] #[serde(rename = "z")] pub b: u8,\n'
+     '    #[serde(skip_serializing)] pub c: u8,\n    #[serde(skip_serializing_if = "Option::is_none")] pub d: Option<u8>,\n    #[serde(default, skip)] pub e: u8,\n    pub f: u8,\n}\n', []),
+    ('#[typeshare]\n#[serde(tag = "t", content = "c")]\npub enum AllSkipped { #[serde(skip)] A(u8), #[typeshare(skip)] B { x: u8 } }\n#[typeshare]\npub struct Kept { pub a: u8 }\n', []),
+    ('#[typeshare]\npub struct Bad { pub a: u64 }\n#[typeshare]\npub struct Good { pub a: u8, #[serde(skip)] pub b: u64 }\n', []),
+]
+
+
+def plant_error(rng, prog):
+    """make one annotated item fail to parse (unsupported type in a member that may itself be skipped)"""
+    cands = [it for it in prog.items if it.annotated and it.kind in ('struct', 'alias', 'newtype') and (it.kind != 'struct' or it.fields)]
+    if not cands:
+        return
+    it = rng.choice(cands)
+    if it.kind == 'struct':
+        rng.choice(it.fields).ty = ('raw', rng.choice(['u64', 'i64', 'usize', 'Vec<u64>', '(u8, u8)']))
+    else:
+        it.ty = ('raw', rng.choice(['u64', 'isize', 'Option<i64>']))
+
+
 def profile():
     return progs.Profile(n_items=(1, 6), p_unannotated=0.3, p_nested=0.0, p_skip=0.3, p_rename=0.2, p_rename_all=0.25, p_raw=0.08,
                          p_doc=0.15, p_generic=0.1, allow_const=True, allow_unit_type=False, dash_in_rename=0.3,
@@ -42,6 +73,8 @@ def nest(rng, prog):
     for it in prog.items:
         depth = rng.choice([0, 0, 1, 1, 2, 3, 4])
         it.nest = [rng.choice(WRAPPERS) for _ in range(depth)]
+        if it.annotated and it.kind != 'const' and rng.random() < 0.12:     # the annotation with arguments: #[typeshare(...)]
+            it.typeshare_args = rng.choice(['swift = "Equatable"', 'redacted', 'swift = "Hashable, Equatable"', 'kotlin = "JvmInline"'])
     if rng.random() < 0.3:
         prog.prelude = ''.join(rng.sample(DECOYS, rng.randint(1, 3)))
 
@@ -208,40 +241,52 @@ def run(chk):
     rng = chk.rng
     quick = chk.tier == 'quick'
     gen = progs.ProgGen(rng, profile())
-    programs = []
-    nrand = 500 if quick else 8000
-    for _ in range(nrand):
-        p = gen.program()
+    gen_noconst = progs.ProgGen(rng, progs.Profile(**dict(vars(profile()), allow_const=False)))
+    programs, targets = [], []
+    nrand = 1400 if quick else 20000
+    for i in range(nrand):
+        p = (gen if i % 4 == 0 else gen_noconst).program()
         nest(rng, p)
+        if rng.random() < 0.08:
+            plant_error(rng, p)
         programs.append(p)
-    for _ in range(12 if quick else 300):
-        programs += subset_family(rng, gen)
-    srcs = [progs.source(p) for p in programs]
+    for _ in range(14 if quick else 400):
+        programs += subset_family(rng, gen_noconst)
+    srcs = [src for src, _ in FIXED] + [progs.source(p) for p in programs]
+    targets = [t for _, t in FIXED] + [[] for _ in programs]
+    programs = [None] * len(FIXED) + programs
+    nrand += len(FIXED)
     chk.count('programs', len(programs))
 
     # ---------- (a) front end
     asts = vf.impl([{'cmd': 'ast', 'src': s} for s in srcs])
-    ipar = vf.impl([{'cmd': 'parse', 'src': s, 'target_os': []} for s in srcs])
+    ipar = vf.impl([{'cmd': 'parse', 'src': s, 'target_os': t} for s, t in zip(srcs, targets)])
     fobs = [front_obs(r) for r in ipar]
     usable = [k for k, a in enumerate(asts) if 'ok' in a]
     chk.count('syn_rejected', len(srcs) - len(usable))
-    mfront = dict(zip(usable, vf.model([f'(c03_front {asts[k]["ok"]} {asts[k]["tstrs"]} () {obs_sx(fobs[k][1]) if fobs[k][0] == "ok" else "na"})' for k in usable])))
-    mmem = dict(zip(usable, vf.model([f'(c03_members {asts[k]["ok"]} ())' for k in usable])))
+    T = lambda k: Lst(targets[k], S)
+    mfront = dict(zip(usable, vf.model([f'(c03_front {asts[k]["ok"]} {asts[k]["tstrs"]} {T(k)} {obs_sx(fobs[k][1]) if fobs[k][0] == "ok" else "na"})' for k in usable])))
+    mmem = dict(zip(usable, vf.model([f'(c03_members {asts[k]["ok"]} {T(k)})' for k in usable])))
     corr = []
     for k in usable:
         prog, src = programs[k], srcs[k]
         chk.evaluations += 1
         m = model_front(mfront[k])
-        tr = truth(prog)
-        payload = {'part': 'front', 'source': src, 'impl': fobs[k][:2], 'model': m['obs'], 'expected_items': m['expected'], 'generator_truth': [(a, b) for a, b, _ in tr]}
+        tr = truth(prog) if prog is not None else None
+        payload = {'part': 'front', 'source': src, 'target_os': targets[k], 'impl': fobs[k][:2], 'model': m['obs'], 'expected_items': m['expected'],
+                   'generator_truth': [(a, b) for a, b, _ in tr] if tr is not None else None}
         # the spec's expected leaves against the generator's ground truth (validates AST conversion + spec)
-        if [n for _, n in m['expected']] != [n for _, n, _ in tr]:
+        if tr is not None and [n for _, n in m['expected']] != [n for _, n, _ in tr]:
             chk.violation(f'front-truth-{k}', payload, 'Spec.C03Spec.expected_leaves on the syn AST differs from the generator\'s list of annotated items', no_input=True)
             continue
         if not m['dom']:
             chk.count('front_outside_domain')
-        interesting = bool(tr) and (any(it.nest for it in prog.items) or any(not it.annotated for it in prog.items) or
-                                    any(x.skip for it in prog.items for _, ms in members_of(it) for x in ms))
+        if tr is None:
+            tr = []
+            interesting = True
+        else:
+            interesting = bool(tr) and (any(it.nest for it in prog.items) or any(not it.annotated for it in prog.items) or
+                                        any(x.skip for it in prog.items for _, ms in members_of(it) for x in ms))
         if fobs[k][0] != 'ok':
             chk.count('front_impl_' + fobs[k][0])
             if m['obs'][0] != fobs[k][0]:
@@ -295,17 +340,17 @@ def run(chk):
             chk.sample({'source_head': src[:400], 'front_obs': fobs[k][1], 'expected_items': m['expected']})
 
     # ---------- (b) back ends
-    nb = 260 if quick else 4000
+    nb = 420 if quick else 6000
     sel = [k for k in usable if k < nrand and fobs[k][0] == 'ok'][:nb] + [k for k in usable if k >= nrand and fobs[k][0] == 'ok'][:(200 if quick else 3000)]
     cases = [(k, L) for k in sel for L in LANGS]
-    ires = vf.impl([{'cmd': 'generate', 'lang': L[0], 'cfg': L[3], 'src': srcs[k], 'target_os': []} for k, L in cases])
-    mres = vf.model([f'(c03_model {L[0]} {back.cfg_sx(L[3])} {asts[k]["ok"]} {asts[k]["tstrs"]} ())' for k, L in cases])
+    ires = vf.impl([{'cmd': 'generate', 'lang': L[0], 'cfg': L[3], 'src': srcs[k], 'target_os': targets[k]} for k, L in cases])
+    mres = vf.model([f'(c03_model {L[0]} {back.cfg_sx(L[3])} {asts[k]["ok"]} {asts[k]["tstrs"]} {T(k)})' for k, L in cases])
     judge_req, judge_idx, iobs = [], [], {}
     for n, ((k, L), r) in enumerate(zip(cases, ires)):
         if 'ok' in r:
             defs, unparsed, anomalies = extract_defs(L[0], r['ok'])
             iobs[n] = (defs, unparsed, anomalies)
-            judge_req.append(f'(c03_back {L[0]} {asts[k]["ok"]} () {defs_sx(defs)})')
+            judge_req.append(f'(c03_back {L[0]} {asts[k]["ok"]} {T(k)} {defs_sx(defs)})')
             judge_req.append(f'(c03_back_ir {L[0]} {items_sx(r["ir"])} {defs_sx(defs)})')
             judge_idx.append(n)
     jres = vf.model(judge_req)
@@ -315,7 +360,7 @@ def run(chk):
         lang = L[0]
         src = srcs[k]
         ic = back.impl_canon(r)
-        payload = {'part': 'back', 'lang': lang, 'cfg': L[3], 'source': src}
+        payload = {'part': 'back', 'lang': lang, 'cfg': L[3], 'source': src, 'target_os': targets[k]}
         if ic[0] != 'ok':
             chk.count(f'back_{lang}_{ic[0]}')
             mk = m[0]
@@ -355,8 +400,8 @@ def run(chk):
 
     # ---------- (c) the real binary on a sample
     if chk.cli_ok:
-        with_err = [k for k in usable if fobs[k][0] == 'ok' and fobs[k][1][4] > 0]
-        without = [k for k in usable if fobs[k][0] == 'ok' and fobs[k][1][4] == 0 and sum(len(x) for x in fobs[k][1][:4]) > 0]
+        with_err = [k for k in usable if not targets[k] and fobs[k][0] == 'ok' and fobs[k][1][4] > 0]
+        without = [k for k in usable if not targets[k] and fobs[k][0] == 'ok' and fobs[k][1][4] == 0 and sum(len(x) for x in fobs[k][1][:4]) > 0]
         ncli = 36 if quick else 600
         pick = with_err[:ncli] + without[:ncli]
         jobs = [(srcs[k], LANGS[i % 6][0], LANGS[i % 6][1], LANGS[i % 6][2]) for i, k in enumerate(pick)]
